@@ -552,7 +552,7 @@ func (n *vcNode) absorb(mi msgInfo) {
 			net.hashName[hex.EncodeToString(p.BlockID.Hash)] = net.freshName("B" + n.name)
 			net.pshName[key] = net.hashName[hex.EncodeToString(p.BlockID.Hash)]
 		}
-		v := net.nameOfHash(p.BlockID.Hash)
+		v := net.nameOfBlockID(p.BlockID) // the BlockID: a re-proposed valid block keeps the part-set header it was received under
 		// patch the name into the sign record / output made before the block had a name
 		for i := range n.signs {
 			if n.signs[i].T == "proposal" && n.signs[i].R == int(p.Round) && n.signs[i].V[0] == '?' {
